@@ -6,33 +6,44 @@ is imported (translate_alias.generate -> coq/theories/Gen/Alias.v), so ./check r
 against the tree as it is now.  run(ctx) validates the abstraction dynamically and searches for failing
 inputs: every public function is called on deep-copied small arguments and every array argument is compared
 afterwards (values, dtype, shape)."""
-import os, sys, io, copy, json, inspect, contextlib, tempfile, traceback
+import os, re, sys, io, copy, json, inspect, contextlib, tempfile, traceback
 from common import *
 import translate_alias as ta
 
 ID = 'C13'
-COQ_FILES = ['Model/AliasLang.v', 'Proofs/AliasLang.v', 'Gen/Alias.v', 'Properties/C13.v']
+COQ_FILES = ['Model/AliasLang.v', 'Proofs/AliasLang.v', 'Gen/Alias.v', 'Proofs/AliasBct.v', 'Properties/C13.v']
 THEOREMS = ['C13_no_param_mutation_sound', 'C13_params_unchanged', 'C13_frame_sound', 'C13_copy_false_contract',
             'C13_copy_true_contract', 'C13_bct_public_functions_pure', 'C13_bct_copy_false_contract',
-            'C13_rejected_refuted']
+            'C13_rejected_refuted', 'C13_bct_results_fresh', 'C13_bct_frame', 'C13_bct_copy_false_frame',
+            'C13_bct_public_functions_pure_docscalar', 'C13_autofix_copy_false_refuted', 'C13_logtransform_copy_false_refuted']
 RULE = ('every public function of the bct namespace x argument families (symmetric / directed / signed / binary / '
-        'fractional weights, all with NONZERO diagonal; int, bool, Fortran-ordered and strided-view inputs; community '
-        'vectors with odd labels) x option variants (copy=True/False, seeds, string options) x malformed arguments '
-        '(non-square, 1-D, empty, NaN) that exercise the exceptional exits; a case is non-trivial when at least one '
-        'ndarray was passed; distinct by hash of (function, arguments)')
+        'fractional weights, all with NONZERO diagonal; int, bool (full and partial diagonal), Fortran-ordered and strided-view '
+        'inputs; malformed: non-square, 1-D, empty, NaN, inf) x option variants (copy=True/False, seeds, string options, '
+        'non-default flag combinations); the SECOND array arguments (community vectors, distance matrices, coordinates, B) '
+        'rotate through int64 exactly 1..m / odd labels / float / int32 / list / column / zero-and-negative labels and '
+        'C / Fortran / strided / int layouts; three passes: before/after comparison, the same calls on READ-ONLY buffers (any '
+        'write attempt raises), and 0-d arrays in the place of documented scalars; deterministic case plan (counts, not '
+        'wall-clock); a case is non-trivial when at least one ndarray was passed; distinct by hash of (function, arguments, pass)')
 ASSUMES = ['parameter kinds (array vs scalar) are read from the numpydoc Parameters block; an undocumented parameter is an '
-           'array, except `seed` and parameters forwarded as is to a documented scalar formal',
+           'array, except `seed` and parameters forwarded as is to a documented scalar formal; a documented scalar that the body '
+           'writes through BY NAME (itr *= k, thr[...] = 0, also when handed as is to such a callee) counts as an array; checked '
+           'at run time: every ndarray / list the harness passes sits in a formal the model treats as an array '
+           '(<fn>:doc-kind), and 0-d arrays are passed in the place of documented scalars and compared afterwards',
            'a d-index subscript P[i,j] of a never re-bound parameter documented as d-dimensional selects an element, not a view',
-           'NumPy / builtin routines are classified by the tables at the top of harness/translate_alias.py (in-place / view / '
-           'pure); anything not in a table is treated as writing through every argument and returning Unknown',
-           'plotting back-ends (mlab, plt) only read their data; decorators (@due.dcite) do not change behaviour; '
-           'objects stored in ndarray(dtype=object) are not tracked',
+           'NumPy / SciPy / builtin routines are classified by the whitelists at the top of harness/translate_alias.py (in-place / '
+           'view / pure with a verified positional arity and benign keywords); anything else - unknown routine, unknown keyword, '
+           'extra positional argument, copy= / out= / overwrite_*= / inplace=, unknown module alias or sub-namespace - is treated as '
+           'writing through every argument and returning Unknown; pinned by harness/translate_alias_corpus (run at every check) '
+           'and compared with the signatures of the installed NumPy / SciPy',
+           'plotting back-ends (mlab, plt), the observation hooks (bct/utils/_verif.py) and duecredit stubs only read their data; '
+           'decorators (@due.dcite) do not change behaviour; objects stored in ndarray(dtype=object) and module-level state are '
+           'not tracked',
            'the property is about ndarray arguments: RandomState objects passed as seed are advanced by design']
-TRUSTED = ['harness/translate_alias.py: Python-ast -> AliasLang translator (syntactic, fail-closed); its classification tables of '
+TRUSTED = ['harness/translate_alias.py: Python-ast -> AliasLang translator (syntactic, fail-closed); its whitelists of '
            'NumPy/builtin routines; the abstraction of Python values by "names that may share memory" (validated dynamically: '
-           'before/after snapshots of every argument, np.shares_memory(result, argument) against the fret summaries)',
+           'before/after snapshots of every argument, read-only buffers, np.shares_memory(result, argument) against the fret summaries)',
            'Extract/C13.v additionally uses ExtrOcamlNativeString (Coq stdlib) so that Coq strings are OCaml strings; the '
-           'extracted checker is only a cross-check of the Python mirror — the tie is coqc re-checking Gen/Alias.v']
+           'extracted checker is only a cross-check of the Python mirror - the tie is coqc re-checking Gen/Alias.v']
 
 NAMED_CONTRACT = ('threshold_absolute', 'threshold_proportional', 'weight_conversion', 'binarize', 'normalize', 'invert')
 
@@ -43,7 +54,7 @@ def pregen():
     """(re)generate coq/theories/Gen/Alias.v from the current tree"""
     global GEN, GEN_ERROR
     try:
-        GEN = ta.generate(REPO, COQ)
+        GEN = ta.generate(REPO, COQ, write=os.environ.get('C13_DRY') != '1')     # C13_DRY=1: development runs that must not touch coq/
         GEN_ERROR = None
     except Exception:
         GEN, GEN_ERROR = None, traceback.format_exc()
@@ -59,8 +70,22 @@ pregen()       # at import time: ./check imports this module before it builds th
 
 # ----------------------------------------------------------------------------- argument families
 class Gen:
-    def __init__(self, rs, n):
-        self.rs, self.n = rs, n
+    def __init__(self, rs, n, flav=0):
+        self.rs, self.n, self.flav = rs, n, flav      # flav: rotates dtype / layout / label style of the SECOND array arguments
+
+    def lay(self, A, k=None):
+        """the same values in another memory layout / dtype: C, Fortran, strided view (base compared as well), int"""
+        k = (self.flav if k is None else k) % 4
+        if k == 1:
+            return np.asfortranarray(A)
+        if k == 2 and A.ndim >= 1:
+            big = np.full(tuple(2 * d for d in A.shape), 9, dtype=A.dtype)
+            sl = tuple(slice(None, None, 2) for _ in A.shape)
+            big[sl] = A
+            return big[sl]
+        if k == 3 and A.dtype.kind == 'f' and A.size and np.all(np.isfinite(A)) and np.all(A == np.round(A)):
+            return A.astype(int)
+        return A
 
     def _diag(self, A, signed=False):
         n = len(A)
@@ -122,6 +147,13 @@ class Gen:
     def bool_u(self):
         return self.bin_u().astype(bool)
 
+    def bool_part(self):
+        """boolean adjacency matrix whose diagonal is only partly set (setting OR clearing the diagonal changes it)"""
+        A = self.bin_u().astype(bool)
+        n = len(A)
+        A[np.arange(n), np.arange(n)] = (np.arange(n) % 2 == 0)
+        return A
+
     def fortran_d(self):
         return np.asfortranarray(self.dir_w())
 
@@ -152,10 +184,25 @@ class Gen:
         return A
 
     # ---- other kinds of arguments
-    def ci(self):
-        lab = np.array([3, 7, 11])
+    def ci(self, k=None):
+        """community vector; the style rotates with flav: int64 odd labels / int64 exactly 1..m / float / int32 / list /
+        column vector / labels with zero and a negative one / strided int64 view"""
+        k = (self.flav if k is None else k) % 8
+        lab = np.array([-2, 0, 5]) if k == 6 else (np.array([1, 2, 3]) if k == 1 else np.array([3, 7, 11]))
         c = lab[self.rs.randint(0, 3, size=self.n)]
-        c[0], c[1], c[-1] = 3, 7, 11
+        c[0], c[1], c[-1] = lab[0], lab[1], lab[2]
+        if k == 2:
+            return c.astype(float)
+        if k == 3:
+            return c.astype(np.int32)
+        if k == 4:
+            return [int(x) for x in c]
+        if k == 5:
+            return c.reshape(-1, 1)
+        if k == 7:
+            big = np.zeros(2 * len(c), dtype=c.dtype)
+            big[::2] = c
+            return big[::2]
         return c
 
     def ci123(self):
@@ -164,7 +211,7 @@ class Gen:
         return c
 
     def ci_float(self):
-        return self.ci().astype(float)
+        return self.ci(0).astype(float)
 
     def cbin(self):
         c = (self.rs.rand(self.n) < 0.5).astype(float)
@@ -172,24 +219,38 @@ class Gen:
         return c
 
     def cimat(self, m=4):
-        return np.array([self.ci() for _ in range(m)]).T
+        return self.lay(np.array([self.ci(0) for _ in range(m)]).T)
 
     def vec(self, k):
-        return self.rs.randint(1, 5, size=k).astype(float)
+        return self.lay(self.rs.randint(1, 5, size=k).astype(float))
 
     def xyz(self):
-        return self.rs.rand(self.n, 3) * 10
+        return self.lay(np.round(self.rs.rand(self.n, 3) * 10))
 
     def dist(self):
-        X = self.xyz()
+        """distance matrix; rotates through C / Fortran / strided / int / with unreachable pairs (inf) / nonzero diagonal"""
+        X = self.rs.rand(self.n, 3) * 10
         D = np.sqrt(((X[:, None, :] - X[None, :, :]) ** 2).sum(-1))
-        return D
+        k = self.flav % 6
+        if k == 3:
+            return np.round(D).astype(int)
+        if k == 4:
+            D[0, 3] = D[3, 0] = D[1, 4] = D[4, 1] = np.inf
+            return D
+        if k == 5:
+            D[np.arange(self.n), np.arange(self.n)] = 1.0
+            return D
+        return self.lay(D, k)
+
+    def second(self):
+        """a second matrix argument (B, the other matrix of a pair)"""
+        return self.lay(self.und_w())
 
     def stack3(self, p):
         return np.stack([self.full_u() + self.rs.rand(self.n, self.n) for _ in range(p)], axis=2)
 
 
-VALID = ['und_w', 'dir_w', 'signed_u', 'signed_d', 'bin_u', 'bin_d', 'frac_u', 'full_u', 'int_u', 'bool_u', 'fortran_d', 'strided_u']
+VALID = ['und_w', 'dir_w', 'signed_u', 'signed_d', 'bin_u', 'bin_d', 'frac_u', 'full_u', 'int_u', 'bool_u', 'bool_part', 'fortran_d', 'strided_u']
 MALFORMED = ['nonsquare', 'vec1d', 'empty', 'nan_u', 'inf_u']
 ALLFAM = VALID + MALFORMED
 
@@ -207,22 +268,23 @@ def spec_table():
     S['adjacency_plot_und'] = (['und_w'], lambda g, M: [((M, g.xyz()), {})])
     S['agreement'] = (['-'], lambda g, M: [((g.cimat(),), {}), ((g.cimat(),), {'buffsz': 2}), ((g.cimat().astype(float),), {})])
     S['agreement_weighted'] = (['-'], lambda g, M: [((g.cimat().T, g.vec(4)), {}), ((g.cimat(), g.vec(4)), {})])
-    S['align_matrices'] = (['und_w', 'dir_w', 'nonsquare'], lambda g, M: [((M, g.und_w()), {'H': 30}), ((M, g.und_w()), {'H': 30, 'dfun': 'absdiff'})])
+    S['align_matrices'] = (['und_w', 'dir_w', 'nonsquare'], lambda g, M: [((M, g.second()), {'H': 30}), ((M, g.second()), {'H': 30, 'dfun': 'absdiff'})])
     for f in ('assortativity_bin', 'assortativity_wei'):
         S[f] = (ALLFAM, lambda g, M: [((M,), {'flag': k}) for k in range(5)])
     S['backbone_wu'] = (ALLFAM, lambda g, M: [((M, 2), {})])
     S['breadth'] = (ALLFAM, lambda g, M: [((M, 0), {})])
-    S['charpath'] = (['und_w', 'full_u', 'inf_u', 'nan_u', 'nonsquare', 'strided_u'],
-                     lambda g, M: [((M,), {}), ((M,), {'include_diagonal': True, 'include_infinite': False})])
-    S['clique_communities'] = (['bin_u', 'und_w', 'bool_u', 'nonsquare'], lambda g, M: [((M, 3), {})])
+    S['charpath'] = (['und_w', 'full_u', 'inf_u', 'nan_u', 'nonsquare', 'strided_u', 'dir_w', 'int_u'],
+                     lambda g, M: [((M,), {}), ((M,), {'include_diagonal': True, 'include_infinite': False}),
+                                   ((M,), {'include_diagonal': True}), ((M,), {'include_infinite': False})])
+    S['clique_communities'] = (['bin_u', 'und_w', 'bool_u', 'bool_part', 'nonsquare'], lambda g, M: [((M, 3), {})])
     S['clustering_coef_wu_sign'] = (ALLFAM, lambda g, M: [((M,), {}), ((M,), {'coef_type': 'constantini'}), ((M,), {'coef_type': 'zhang'}), ((M,), {'coef_type': 'bogus'})])
     S['community_louvain'] = (ALLFAM, lambda g, M: [((M,), {'seed': 1}), ((M,), {'seed': 2, 'ci': g.ci()}), ((M,), {'seed': 3, 'B': 'negative_sym'}),
-                                                     ((M,), {'seed': 4, 'B': 'negative_asym'}), ((M,), {'seed': 5, 'B': g.und_w()}),
-                                                     ((M,), {'seed': 6, 'B': 'potts', 'gamma': 0.5}), ((M,), {'seed': 7, 'B': 'bogus'})])
-    S['consensus_und'] = (['und_w', 'frac_u', 'nonsquare'], lambda g, M: [((M / max(1.0, np.nanmax(np.abs(M)) if M.size else 1.0), 0.3), {'reps': 3, 'seed': 1})])
+                                                     ((M,), {'seed': 4, 'B': 'negative_asym'}), ((M,), {'seed': 5, 'B': g.second()}),
+                                                     ((M,), {'seed': 6, 'B': 'potts', 'gamma': 0.5}), ((M,), {'seed': 7, 'B': 'bogus'}), ((M,), {'seed': 8, 'ci': g.ci123()})])
+    S['consensus_und'] = (['und_w', 'frac_u', 'nonsquare', 'full_u'], lambda g, M: [((M / max(1.0, np.nanmax(np.abs(M)) if M.size else 1.0), tau), {'reps': 3, 'seed': 1}) for tau in (0.3, 0, 0.9)])
     S['core_periphery_dir'] = (ALLFAM, lambda g, M: [((M,), {'seed': 1}), ((M,), {'seed': 2, 'C0': g.cbin()}), ((M,), {'seed': 3, 'gamma': 0.5})])
     for f in ('corr_flat_dir', 'corr_flat_und', 'dice_pairwise_und'):
-        S[f] = (ALLFAM, lambda g, M: [((M, g.und_w()), {}), ((M, g.dir_w()), {})])
+        S[f] = (ALLFAM, lambda g, M: [((M, g.second()), {}), ((M, g.lay(g.dir_w())), {})])
     S['cuberoot'] = (ALLFAM, one)
     S['cycprob'] = (['-'], lambda g, M: [((g.stack3(3),), {})])
     for f in ('diversity_coef_sign', 'participation_coef_sign'):
@@ -279,11 +341,11 @@ def spec_table():
     S['makeringlatticeCIJ'] = (['-'], lambda g, M: [((8, 16), {'seed': 1})])
     S['maketoeplitzCIJ'] = (['-'], lambda g, M: [((8, 16, 1.0), {'seed': 1})])
     for f in ('modularity_dir', 'modularity_und'):
-        S[f] = (ALLFAM, lambda g, M: [((M,), {}), ((M,), {'kci': g.ci()}), ((M,), {'gamma': 0.5})])
+        S[f] = (ALLFAM, lambda g, M: [((M,), {}), ((M,), {'kci': g.ci()}), ((M,), {'gamma': 0.5}), ((M,), {'kci': g.ci123()})])
     for f in ('modularity_finetune_dir', 'modularity_finetune_und'):
-        S[f] = (ALLFAM, lambda g, M: [((M,), {'seed': 1}), ((M,), {'seed': 2, 'ci': g.ci()}), ((M,), {'seed': 3, 'ci': g.ci_float(), 'gamma': 0.5})])
-    S['modularity_finetune_und_sign'] = (ALLFAM, lambda g, M: [((M,), {'seed': 1}), ((M,), {'seed': 2, 'ci': g.ci(), 'qtype': 'gja'}), ((M,), {'seed': 2, 'qtype': 'bogus'})])
-    S['modularity_probtune_und_sign'] = (ALLFAM, lambda g, M: [((M,), {'seed': 1}), ((M,), {'seed': 2, 'ci': g.ci(), 'qtype': 'pos', 'p': 0.3})])
+        S[f] = (ALLFAM, lambda g, M: [((M,), {'seed': 1}), ((M,), {'seed': 2, 'ci': g.ci()}), ((M,), {'seed': 3, 'ci': g.ci_float(), 'gamma': 0.5}), ((M,), {'seed': 4, 'ci': g.ci123()})])
+    S['modularity_finetune_und_sign'] = (ALLFAM, lambda g, M: [((M,), {'seed': 1}), ((M,), {'seed': 2, 'ci': g.ci(), 'qtype': 'gja'}), ((M,), {'seed': 2, 'qtype': 'bogus'}), ((M,), {'seed': 4, 'ci': g.ci123()})])
+    S['modularity_probtune_und_sign'] = (ALLFAM, lambda g, M: [((M,), {'seed': 1}), ((M,), {'seed': 2, 'ci': g.ci(), 'qtype': 'pos', 'p': 0.3}), ((M,), {'seed': 3, 'ci': g.ci123()})])
     for f in ('modularity_louvain_dir', 'modularity_louvain_und'):
         S[f] = (ALLFAM, lambda g, M: [((M,), {'seed': 1}), ((M,), {'seed': 2, 'hierarchy': True})])
     S['modularity_louvain_und_sign'] = (ALLFAM, lambda g, M: [((M,), {'seed': 1}), ((M,), {'seed': 2, 'qtype': 'neg'}), ((M,), {'seed': 2, 'qtype': 'bogus'})])
@@ -342,7 +404,7 @@ def generic_builder(sig):
             elif p.name in SCALAR_GUESS:
                 args.append(SCALAR_GUESS[p.name])
             else:
-                args.append(g.und_w())
+                args.append(g.second())
         kw = {'seed': 1} if 'seed' in sig.parameters else {}
         return [(tuple(args), kw)]
     return build
@@ -422,8 +484,49 @@ def call_hard(f, args, kwargs, t):
         signal.setitimer(signal.ITIMER_REAL, 0)
 
 
+READONLY_WRITE = ('assignment destination is read-only', 'output array is read-only', 'array is read-only',
+                  'cannot set WRITEABLE flag', 'is read-only', 'read-only')
+READONLY_NOT_A_WRITE = ('buffer source array is read-only',)     # Cython typed memoryviews refuse read-only buffers even to read
+
+
+def frozen(a):
+    """the same array (dtype, shape, strides, values) over an immutable bytes buffer: every write raises, and
+    setflags(write=True) cannot re-enable it"""
+    if not isinstance(a, np.ndarray) or a.size == 0 or a.dtype.kind == 'O':
+        return a
+    r = a
+    while isinstance(r.base, np.ndarray):
+        r = r.base
+    if not (r.flags.c_contiguous or r.flags.f_contiguous):
+        return a
+    off = a.__array_interface__['data'][0] - r.__array_interface__['data'][0]
+    if off < 0 or off + 1 > r.nbytes:
+        return a
+    buf = r.tobytes(order='A')
+    return np.ndarray(shape=a.shape, dtype=a.dtype, buffer=buf, offset=off, strides=a.strides)
+
+
+def freeze_deep(x):
+    if isinstance(x, np.ndarray):
+        return frozen(x)
+    if hasattr(x, 'indptr') and hasattr(x, 'data') and hasattr(x, 'indices'):
+        for k in ('data', 'indices', 'indptr'):
+            try:
+                getattr(x, k).setflags(write=False)
+            except Exception:
+                pass
+        return x
+    if isinstance(x, tuple):
+        return tuple(freeze_deep(y) for y in x)
+    if isinstance(x, list):
+        return [freeze_deep(y) for y in x]
+    if isinstance(x, dict):
+        return {k: freeze_deep(v) for k, v in x.items()}
+    return x
+
+
 def run_case(f, args, kwargs, timeout):
-    """call f; returns (status, result, changed) where changed = [(path, before, after)] over every ndarray argument"""
+    """call f; returns (status, result, changed, arrs, message) where changed = [(path, before, after)] over every ndarray argument"""
     arrs = []
     for i, a in enumerate(args):
         arrays_in(a, 'arg%d' % i, arrs)
@@ -433,8 +536,10 @@ def run_case(f, args, kwargs, timeout):
     lsts = []
     for i, a in enumerate(args):
         lists_in(a, 'arg%d' % i, lsts)
+    for k, a in kwargs.items():
+        lists_in(a, k, lsts)
     lsnaps = [(p, l, copy.deepcopy(l)) for p, l in lsts]
-    res, status = None, 'ok'
+    res, status, msg = None, 'ok', ''
     try:
         with contextlib.redirect_stdout(io.StringIO()), contextlib.redirect_stderr(io.StringIO()):
             res = call_hard(f, args, kwargs, timeout)
@@ -444,6 +549,7 @@ def run_case(f, args, kwargs, timeout):
         if isinstance(e, (KeyboardInterrupt, SystemExit)):
             raise
         status = 'raised:' + type(e).__name__
+        msg = str(e)[:300]
     changed = []
     for p, a, before, dt, sh in snaps:
         if not (a.dtype == dt and a.shape == sh and same(a, before)):
@@ -455,7 +561,62 @@ def run_case(f, args, kwargs, timeout):
             eq = True
         if not eq:
             changed.append((p, before, copy.deepcopy(l)))
-    return status, res, changed, arrs
+    return status, res, changed, arrs, msg
+
+
+def formal_of(sig, path):
+    """'arg2[0].base' / 'kci' -> name of the formal parameter that received it"""
+    head = re.split(r'[.\[]', path, 1)[0]
+    names = list(sig.parameters)
+    if head.startswith('arg') and head[3:].isdigit():
+        i = int(head[3:])
+        ps = [p for p in sig.parameters.values() if p.kind in (p.POSITIONAL_ONLY, p.POSITIONAL_OR_KEYWORD)]
+        if i < len(ps):
+            return ps[i].name
+        va = [p for p in sig.parameters.values() if p.kind == p.VAR_POSITIONAL]
+        return va[0].name if va else head
+    if head in names:
+        return head
+    vk = [p for p in sig.parameters.values() if p.kind == p.VAR_KEYWORD]
+    return vk[0].name if vk else head
+
+
+def motif_library(bct):
+    """the motif functions read bct/algorithms/motif34lib.mat, which is not in the tree; bct.make_motif34lib() writes it next to
+    motifs.py.  Here it is generated once into the temp dir (cached by the hash of motifs.py) and scipy.io.loadmat /
+    savemat are redirected for that one file name, so that the eight motif functions run past their first statement and
+    nothing is ever written into the source tree.  -> path or None"""
+    import scipy.io, hashlib
+    src = os.path.join(REPO, 'bct', 'algorithms', 'motifs.py')
+    try:
+        h = hashlib.sha1(open(src, 'rb').read() + np.__version__.encode()).hexdigest()[:16]
+    except OSError:
+        return None
+    path = os.path.join(tempfile.gettempdir(), 'c13_motif34lib_%s.mat' % h)
+    real_save, real_load = scipy.io.savemat, scipy.io.loadmat
+
+    def is_lib(fn):
+        return os.path.basename(str(fn)) == 'motif34lib.mat'
+
+    def savemat(fn, *a, **k):
+        if is_lib(fn):
+            return real_save(path + '.tmp.mat', *a, **k)
+        return None                                   # nothing else may be written either
+    def loadmat(fn, *a, **k):
+        if is_lib(fn) and not os.path.exists(str(fn)) and os.path.exists(path):
+            return real_load(path, *a, **k)
+        return real_load(fn, *a, **k)
+    scipy.io.savemat, scipy.io.loadmat = savemat, loadmat
+    if not os.path.exists(path):
+        try:
+            with contextlib.redirect_stdout(io.StringIO()):
+                call_hard(bct.make_motif34lib, (), {}, 120.0)
+            os.replace(path + '.tmp.mat', path)
+        except BaseException as e:
+            if isinstance(e, (KeyboardInterrupt, SystemExit)):
+                raise
+            return None
+    return path if os.path.exists(path) else None
 
 
 def shares(res, arrs):
@@ -486,15 +647,34 @@ def single_thread_blas():
 
 
 # ----------------------------------------------------------------------------- the check
-def run(ctx):
-    import bct
-    import scipy.linalg          # loads scipy's BLAS too, before the thread pools are sized down
-    single_thread_blas()
-    if GEN_ERROR or GEN is None:
-        ctx.errors.append('translator failed: ' + str(GEN_ERROR)[-1500:])
-        return
-    gen = GEN
-    funs = {fd['name']: fd for fd in gen['funs']}
+CORPUS = os.path.join(os.path.dirname(os.path.abspath(__file__)), 'translate_alias_corpus')
+ONLY = set(filter(None, os.environ.get('C13_ONLY', '').split(',')))      # development aid: restrict the dynamic part
+
+# pinned shapes of the two copy utilities whose copy=False path is not in place (Proofs/AliasBct.v autofix_shape / logtransform_shape)
+_ifcopy = ('IfFlag', ('Bind', 'W', ('CopyOf', 'W')), ('Skip',))
+_ret = ('Return', 'W')
+_refresh = ('Choice', ('Bind', 'W', ('Fresh',)), ('Skip',))
+PINNED_SHAPES = {
+    'autofix': ta.seq([_ifcopy, ('Mutate', 'W'), ('Mutate', 'W'), ('Mutate', 'W'), ('Bind', 'u', ('Fresh',)), _refresh, _refresh, _ret]),
+    'logtransform': ta.seq([_ifcopy, ('Choice', ('Raise',), ('Skip',)), ('Bind', 'W', ('Fresh',)), _ret]),
+}
+
+
+def strip_lines(c):
+    """the command without the source line numbers the translator attaches to Mutate / CallFn"""
+    k = c[0]
+    if k == 'Mutate':
+        return ('Mutate', c[1])
+    if k == 'CallFn':
+        return tuple(c[:5])
+    if k in ('Seq', 'Choice', 'IfFlag', 'Try'):
+        return (k, strip_lines(c[1]), strip_lines(c[2]))
+    if k == 'Loop':
+        return ('Loop', strip_lines(c[1]))
+    return c
+
+
+def static_part(ctx, gen, funs, bct):
     prog = funs
     ctx.extra['static'] = {
         'functions_translated': len(gen['funs']), 'public': sum(1 for f in gen['funs'] if f['public']),
@@ -503,9 +683,22 @@ def run(ctx):
         'commands': sum(ta.cmd_size(f['body']) for f in gen['funs']), 'gen_sha1': gen['sha1'],
         'summaries_with_writes': {f['name']: {'copy_true': f['mut_t'], 'copy_false': f['mut_f']} for f in gen['funs'] if f['mut_t'] or f['mut_f']},
         'contracts_verified': sorted(f['name'] for f in gen['funs'] if f['contract']),
+        'documented_scalars_written_by_name': gen.get('promoted', {}),
+        'flagged_when_documented_scalars_are_believed': (gen['ds'] or {}).get('flagged') if gen.get('promoted') else gen['flagged'],
     }
     for e in gen['errors']:
         ctx.errors.append('translator: ' + e)
+
+    # ---- 0. the translator itself: pinned corpus of small positive / negative snippets, tables vs installed NumPy / SciPy
+    try:
+        n_corpus, complaints = ta.corpus_check(CORPUS)
+    except Exception:
+        n_corpus, complaints = 0, ['corpus: translator crashed on the corpus: ' + traceback.format_exc()[-600:]]
+    complaints += ['tables: ' + c for c in ta.table_selfcheck()]
+    ctx.extra['static']['translator_corpus_cases'] = n_corpus
+    ctx.count('translator_corpus_cases', n_corpus)
+    for c in complaints:
+        ctx.mismatch('translator-corpus', c, {'fn': 'harness/translate_alias.py'})
 
     # ---- 1. the extracted Coq checker on the serialised program must agree with the translator's mirror
     res = run_model(ID, [ta.serialise(gen['funs'])])
@@ -533,16 +726,50 @@ def run(ctx):
     for nm in NAMED_CONTRACT:
         if nm in funs and not funs[nm]['contract']:
             ctx.mismatch(nm + ':copy-false-contract', 'the checker cannot establish that copy=False returns the argument itself', {'fn': nm})
+    # the copy utilities that have no in-place contract: is the pinned refutation (Proofs/AliasBct.v) still about the code?
+    pinned = {}
+    for nm, shape in PINNED_SHAPES.items():
+        fd = funs.get(nm)
+        if fd is None:
+            pinned[nm] = 'not translated'
+        elif fd['contract']:
+            pinned[nm] = 'the code now has a verified in-place contract (the pinned refutation no longer applies)'
+        elif strip_lines(fd['body']) == shape:
+            pinned[nm] = 'generated body = pinned shape: copy=False is not in place (C13_%s_copy_false_refuted applies)' % nm
+        else:
+            pinned[nm] = 'generated body differs from the pinned shape (no in-place contract is verified for it either)'
+    ctx.extra['static']['copy_false_not_in_place'] = pinned
+    # bct/nbs_parallel.py is not in the namespace (static only): the data arrays x, y must not be written
+    fd = funs.get('nbs_parallel.nbs_bct')
+    if any(f['file'].endswith('nbs_parallel.py') for f in gen['all']):
+        if fd is None or 'x' in fd['mut_t'] or 'y' in fd['mut_t']:
+            ctx.mismatch('nbs_parallel.nbs_bct:static-may-mutate', 'the checker cannot show that nbs_parallel.nbs_bct leaves x and y alone (%s)' %
+                         (gen['hopeless'].get('nbs_parallel.nbs_bct') or (fd and ta.blame(prog, fd, ['x', 'y'], True)[:3])), {'fn': 'nbs_parallel.nbs_bct'})
+        ctx.extra['static']['nbs_parallel'] = {'translated': fd is not None, 'summary_copy_true': fd and fd['mut_t']}
+    return dyn_public
+
+
+def run(ctx):
+    import bct
+    import scipy.linalg          # loads scipy's BLAS too, before the thread pools are sized down
+    single_thread_blas()
+    if GEN_ERROR or GEN is None:
+        ctx.errors.append('translator failed: ' + str(GEN_ERROR)[-1500:])
+        return
+    gen = GEN
+    funs = {fd['name']: fd for fd in gen['funs']}
+    prog = funs
+    dyn_public = static_part(ctx, gen, funs, bct)
 
     # ---- 3. dynamic validation and failing-input search
     S, one = spec_table()
-    tmo = 2.0 if not ctx.thorough else 10.0
-    # nothing the library does may write into the source tree (make_motif34lib would save a .mat next to motifs.py)
+    tmo = 1.5 if not ctx.thorough else 5.0
     import scipy.io
-    real_savemat = scipy.io.savemat
-    scipy.io.savemat = lambda *a, **k: None
+    real_savemat, real_loadmat = scipy.io.savemat, scipy.io.loadmat
+    lib = motif_library(bct)        # redirects loadmat / savemat of motif34lib.mat to the temp dir; nothing is written into the tree
     rounds = ctx.scale(1, 4)
     dyn_mut, dyn_mut_cf, exercised, completed, not_ex, shared = {}, {}, {}, {}, {}, {}
+    cf_stats, docs_seen, pass_counts = {}, set(), {}
     t_dyn = time.time()
     # a runaway allocation inside the library must end as MemoryError in that call, not take the machine down
     import resource
@@ -551,17 +778,51 @@ def run(ctx):
         resource.setrlimit(resource.RLIMIT_AS, (8 * 2 ** 30, old_as[1]))
     except Exception:
         pass
-    dyn_deadline = t_dyn + (45.0 if not ctx.thorough else 700.0)
-    # functions the static checker flags (open findings, or a freshly introduced mutation) are driven first and are
-    # exempt from the wall-clock budget, so that their dynamic witness does not depend on machine load
+    # The plan is a deterministic list of cases (function x family x variant x pass).  Wall-clock only enters through the
+    # per-call time-out (non-terminating library loops) and a far safety net; per function at most MAX_TIMEOUTS calls may
+    # time out before the rest of its plan is dropped (counted, and listed in the evidence).
+    MAX_TIMEOUTS = 1 if not ctx.thorough else 2
+    safety_net = t_dyn + (240.0 if not ctx.thorough else 800.0)
+    # functions the static checker flags (open findings, or a freshly introduced mutation) are driven first
     flagged = [nm for nm in dyn_public if funs.get(nm) is None or funs[nm]['mut_t'] or (funs[nm]['mut_f'] and not funs[nm]['copyutil'])]
     dyn_order = flagged + [nm for nm in dyn_public if nm not in flagged]
+    if ONLY:
+        dyn_order = [nm for nm in dyn_order if nm in ONLY]
+
+    def record_mutation(nm, fd, sig, case, changed, status, mode, has_copy_false, probe_formals):
+        util = bool(fd and fd['copyutil'])
+        w = dict(case)
+        w['changed'] = [{'argument': p, 'formal': formal_of(sig, p), 'before': enc(b), 'after': enc(a)} for p, b, a in changed[:2]]
+        formals = sorted({formal_of(sig, p) for p, _, _ in changed})
+        if has_copy_false and util:
+            ctx.count('copy_false:operates_on_argument')
+            cf_stats.setdefault(nm, {}).setdefault('writes_argument', 0)
+            cf_stats[nm]['writes_argument'] += 1
+            for q in formals:
+                dyn_mut_cf.setdefault(nm, {}).setdefault(q, w)
+            return
+        tgt = dyn_mut_cf if has_copy_false else dyn_mut
+        for q in formals:
+            tgt.setdefault(nm, {}).setdefault(q, w)
+        ctx.count('mutation_witnesses:' + nm)
+        if ctx.dist['mutation_witnesses:' + nm] > 6:          # a few witnesses per function are enough
+            return
+        for q in formals:
+            if q in probe_formals:
+                ctx.fail('%s:mutates-0d-argument-%s' % (nm, q),
+                         '%s changed the 0-d array passed as its parameter %s (documented as a scalar; call %s)' % (nm, q, status), w)
+            elif has_copy_false:
+                ctx.fail(nm + ':mutates-argument-copy-false',
+                         '%s(..., copy=False) changed its argument %s (status %s); the exception of C13 covers only the thresholding / weight-conversion utilities' % (nm, q, status), w)
+            else:
+                ctx.fail(nm + ':mutates-argument', '%s changed its argument %s (call %s, pass %s)' % (nm, q, status, mode), w)
+
     for rnd in range(rounds):
         for nm in dyn_order:
-            if nm in flagged:
-                dyn_deadline += 8.0
             f = getattr(bct, nm)
             sig = inspect.signature(f)
+            fd = funs.get(nm)
+            util = bool(fd and fd['copyutil'])
             fams, build = S.get(nm, (ALLFAM, None))
             if not sig.parameters:
                 # nothing can be passed, so nothing can be modified (make_motif34lib: also regenerates a 1 MB library, slowly)
@@ -572,88 +833,139 @@ def run(ctx):
                 build = one if nreq == 1 else generic_builder(sig)
                 if nreq == 0:
                     fams, build = ['-'], (lambda g, M: [((), {})])
-            budget = time.time() + ((6.0 if nm not in flagged else 30.0) if not ctx.thorough else 40.0)
-            for fam in fams:
-                if time.time() > budget or time.time() > dyn_deadline:
-                    ctx.count('dynamic:budget_cut')
+            timeouts = 0
+            probed = False
+            for fi, fam in enumerate(fams):
+                if timeouts >= MAX_TIMEOUTS or time.time() > safety_net:
+                    ctx.count('dynamic:plan_cut_after_timeouts' if timeouts >= MAX_TIMEOUTS else 'dynamic:safety_net')
                     break
                 fam_seed = int(ctx.nprng.randint(0, 2 ** 31 - 1))
                 fam_n = int(ctx.nprng.randint(5, 8)) if rnd else 6
 
-                def fresh():
+                def fresh(flav):
                     """the same family member and variants, rebuilt from the same seed: no call sees what another one left behind"""
-                    g = Gen(np.random.RandomState(fam_seed), fam_n)
+                    g = Gen(np.random.RandomState(fam_seed), fam_n, flav)
                     M = getattr(g, fam)() if fam != '-' else None
                     if nm == 'retrieve_shortest_path':
                         _, hops, Pmat = bct.distance_wei_floyd(M)
                         return [((0, 3, hops, Pmat), {}), ((2, 2, hops, Pmat), {})]
                     return build(g, M)
                 try:
-                    nvar = len(fresh())
+                    nvar = len(fresh(fi + rnd))
                 except Exception as e:
                     ctx.count('dynamic:builder_error')
                     nvar = 0
-                variants = []
-                for vi in range(nvar):
-                    try:
-                        variants.append(fresh()[vi])
-                    except Exception:
-                        ctx.count('dynamic:builder_error')
-                for args, kwargs in variants:
-                    has_copy_false = kwargs.get('copy', True) is False
-                    case = {'fn': nm, 'family': fam, 'args': enc(list(args)), 'kwargs': enc(kwargs)}
-                    status, resv, changed, arrs = run_case(f, args, kwargs, tmo)
-                    case['status'] = status
-                    ctx.case(case, nontrivial=bool(arrs))
-                    ctx.count('status:' + status.split(':')[0])
-                    ctx.count('family:' + fam)
-                    exercised[nm] = exercised.get(nm, 0) + 1
-                    if status == 'ok':
-                        completed[nm] = completed.get(nm, 0) + 1
-                    fd = funs.get(nm)
-                    util = bool(fd and fd['copyutil'])
-                    if changed:
-                        w = dict(case)
-                        w['changed'] = [{'argument': p, 'before': enc(b), 'after': enc(a)} for p, b, a in changed[:2]]
-                        if has_copy_false and util:
-                            ctx.count('copy_false:operates_on_argument')
-                        elif has_copy_false:
-                            dyn_mut_cf.setdefault(nm, w)
-                            ctx.count('mutation_witnesses:' + nm)
-                            if ctx.dist['mutation_witnesses:' + nm] <= 3:
-                                ctx.fail(nm + ':mutates-argument-copy-false',
-                                         '%s(..., copy=False) changed its argument %s (status %s); the exception of C13 covers only the thresholding / weight-conversion utilities' % (nm, changed[0][0], status), w)
-                        else:
-                            dyn_mut.setdefault(nm, w)
-                            ctx.count('mutation_witnesses:' + nm)
-                            if ctx.dist['mutation_witnesses:' + nm] <= 3:      # a few witnesses per function are enough
-                                ctx.fail(nm + ':mutates-argument', '%s changed its argument %s (call %s)' % (nm, changed[0][0], status), w)
-                    # copy=False contract of the utilities: the result IS the argument
-                    if has_copy_false and util and status == 'ok' and isinstance(args[0], np.ndarray):
-                        ident = resv is args[0]
-                        ctx.count('copy_false:result_is_argument' if ident else 'copy_false:result_is_not_argument')
-                        if nm in NAMED_CONTRACT:
-                            ctx.check(ident, nm + ':copy-false-contract', 'copy=False did not return the caller\'s array itself', case)
-                        if fd and fd['contract'] and not ident:
-                            ctx.mismatch(nm + ':copy-false-contract', 'the model proves result = argument, the implementation returns another object', case, True, False)
-                    # copy=True (default): the result must not share memory with an argument when the summary says so
-                    if status == 'ok' and not has_copy_false and fd is not None:
-                        hit = shares(resv, arrs)
-                        if hit:
-                            shared[nm] = shared.get(nm, 0) + 1
-                            if not fd['ret_t']:
-                                ctx.mismatch(nm + ':result-shares-memory', 'result %s shares memory with %s but the model says the result is fresh' % hit[0], case, False, True)
-            if exercised.get(nm, 0) == 0 and time.time() <= dyn_deadline:
+                # passes: before/after comparison always; read-only buffers on the well-formed families (all of them in the
+                # thorough tier) with the NEXT layout / label style of the second arguments; 0-d probes once per function
+                modes = ['rw']
+                if fam in VALID or fam == '-' or ctx.thorough:
+                    modes.append('ro')
+                if not probed and (fam in VALID or fam == '-'):
+                    modes.append('p0d')
+                    probed = True
+                fam_timed_out = False
+                for mode in modes:
+                    if fam_timed_out:
+                        break
+                    flav = fi + rnd + (3 if mode == 'ro' else 0)
+                    plan = []
+                    for vi in range(nvar):
+                        if mode != 'p0d':
+                            plan.append((vi, None))
+                        elif vi < 2:
+                            try:
+                                a0, k0 = fresh(flav)[vi]
+                            except Exception:
+                                continue
+                            spots = [('a', i) for i, x in enumerate(a0) if type(x) in (int, float)] + \
+                                    [('k', k) for k, x in k0.items() if type(x) in (int, float) and k != 'seed']
+                            plan += [(vi, sp) for sp in spots]
+                    for vi, spot in plan:
+                        if timeouts >= MAX_TIMEOUTS:
+                            break
+                        try:
+                            args, kwargs = fresh(flav)[vi]
+                        except Exception:
+                            ctx.count('dynamic:builder_error')
+                            continue
+                        probe_formals = set()
+                        if spot is not None:
+                            args, kwargs = list(args), dict(kwargs)
+                            if spot[0] == 'a':
+                                args[spot[1]] = np.array(args[spot[1]])
+                                probe_formals.add(formal_of(sig, 'arg%d' % spot[1]))
+                            else:
+                                kwargs[spot[1]] = np.array(kwargs[spot[1]])
+                                probe_formals.add(formal_of(sig, spot[1]))
+                            args = tuple(args)
+                        has_copy_false = kwargs.get('copy', True) is False
+                        if mode == 'ro':
+                            if has_copy_false:
+                                continue                  # writing is what copy=False asks for
+                            args, kwargs = freeze_deep(tuple(args)), freeze_deep(kwargs)
+                        case = {'fn': nm, 'family': fam, 'pass': mode, 'args': enc(list(args)), 'kwargs': enc(kwargs)}
+                        status, resv, changed, arrs, msg = run_case(f, args, kwargs, tmo)
+                        case['status'] = status
+                        ctx.case(case, nontrivial=bool(arrs))
+                        ctx.count('status:' + status.split(':')[0])
+                        ctx.count('family:' + fam)
+                        ctx.count('pass:' + mode)
+                        exercised[nm] = exercised.get(nm, 0) + 1
+                        if status == 'ok':
+                            completed[nm] = completed.get(nm, 0) + 1
+                        if status == 'timeout':
+                            timeouts += 1
+                            fam_timed_out = True
+                        # the doc-kind assumption, checked: every array / list handed over sits in a formal the model treats as an array
+                        if fd is not None and mode != 'p0d':
+                            for pth, a in arrs:
+                                q = formal_of(sig, pth)
+                                if q in fd['params'] and q not in fd['arr'] and (nm, q) not in docs_seen:
+                                    docs_seen.add((nm, q))
+                                    ctx.mismatch(nm + ':doc-kind', 'the harness passes an ndarray for parameter %s, which the model treats as array-free '
+                                                 '(numpydoc kind) - the run %s' % (q, status), case)
+                        if mode == 'ro' and status.startswith('raised') and 'read-only' in msg:
+                            if any(x in msg for x in READONLY_NOT_A_WRITE):
+                                ctx.count('read_only:refused_by_a_reader')
+                            else:
+                                ctx.count('read_only:write_attempt')
+                                w = dict(case)
+                                w['error'] = msg
+                                dyn_mut.setdefault(nm, {}).setdefault('?', w)
+                                ctx.count('mutation_witnesses:' + nm)
+                                if ctx.dist['mutation_witnesses:' + nm] <= 6:
+                                    ctx.fail(nm + ':mutates-argument', '%s tried to write into a read-only argument array (%s): with a writable '
+                                             'array the same call writes into the caller\'s memory, whatever the values' % (nm, msg[:120]), w)
+                        if changed:
+                            record_mutation(nm, fd, sig, case, changed, status, mode, has_copy_false, probe_formals)
+                        # copy=False contract of the utilities: the result IS the argument
+                        if has_copy_false and util and status == 'ok' and isinstance(args[0], np.ndarray):
+                            ident = resv is args[0]
+                            ctx.count('copy_false:result_is_argument' if ident else 'copy_false:result_is_not_argument')
+                            st_ = cf_stats.setdefault(nm, {})
+                            st_['result_is_argument' if ident else 'result_is_not_argument'] = st_.get('result_is_argument' if ident else 'result_is_not_argument', 0) + 1
+                            if nm in NAMED_CONTRACT:
+                                ctx.check(ident, nm + ':copy-false-contract', 'copy=False did not return the caller\'s array itself', case)
+                            if fd and fd['contract'] and not ident:
+                                ctx.mismatch(nm + ':copy-false-contract', 'the model proves result = argument, the implementation returns another object', case, True, False)
+                        # copy=True (default): the result must not share memory with an argument when the summary says so
+                        if status == 'ok' and not has_copy_false and fd is not None and mode == 'rw':
+                            hit = shares(resv, arrs)
+                            if hit:
+                                shared[nm] = shared.get(nm, 0) + 1
+                                if not fd['ret_t']:
+                                    ctx.mismatch(nm + ':result-shares-memory', 'result %s shares memory with %s but the model says the result is fresh' % hit[0], case, False, True)
+            if exercised.get(nm, 0) == 0 and time.time() <= safety_net:
                 not_ex[nm] = 'no argument could be built'
-    scipy.io.savemat = real_savemat
+    scipy.io.savemat, scipy.io.loadmat = real_savemat, real_loadmat
     try:
         resource.setrlimit(resource.RLIMIT_AS, old_as)
     except Exception:
         pass
     ctx.extra['dynamic_wall_s'] = round(time.time() - t_dyn, 1)
 
-    # ---- 4. static vs dynamic
-    for nm in dyn_public:
+    # ---- 4. static vs dynamic, parameter by parameter
+    for nm in (dyn_order if ONLY else dyn_public):
         fd = funs.get(nm)
         if fd is None:
             why = gen['hopeless'].get(nm, 'not translated')
@@ -662,31 +974,40 @@ def run(ctx):
             else:
                 ctx.mismatch(nm + ':static-may-mutate', 'no summary validates this function (%s) and no run changed an argument' % why, {'fn': nm})
             continue
-        static_t = bool(fd['mut_t']) or (not fd['copyutil'] and False)
-        static_f = bool(fd['mut_f']) and not fd['copyutil']
-        if nm in dyn_mut and not static_t:
-            ctx.mismatch(nm + ':translator-unsound', 'the implementation changed an argument that the model says is never written', dyn_mut[nm], 'pure', 'mutates')
-        if static_t and nm not in dyn_mut:
-            why = ta.blame(prog, fd, fd['arr'], True)
-            ctx.mismatch(nm + ':static-may-mutate', 'the checker rejects %s (%s:%s) but no run changed an argument' % (nm, fd['file'], why[:3]), {'fn': nm, 'blame': why[:5]})
-        if static_f and not static_t:
-            if nm in dyn_mut_cf:
-                pass
-            else:
-                why = ta.blame(prog, fd, fd['arr'], False)
-                ctx.mismatch(nm + ':static-may-mutate-copy-false', 'the checker rejects %s under copy=False (%s) but no run changed an argument' % (nm, why[:3]), {'fn': nm, 'blame': why[:5]})
-        if nm in dyn_mut_cf and not fd['mut_f']:
-            ctx.mismatch(nm + ':translator-unsound', 'copy=False changed an argument that the model says is never written', dyn_mut_cf[nm], 'pure', 'mutates')
+        seen_t = dyn_mut.get(nm, {})
+        seen_f = dyn_mut_cf.get(nm, {})
+        for q in fd['mut_t']:
+            if q not in seen_t and '?' not in seen_t:
+                why = ta.blame(prog, fd, [q], True)
+                ctx.mismatch(nm + ':static-may-mutate', 'the checker rejects %s (%s: parameter %s, %s) but no run changed that argument' % (nm, fd['file'], q, why[:3]),
+                             {'fn': nm, 'parameter': q, 'blame': why[:5]})
+        for q in sorted(seen_t):
+            if q != '?' and q not in fd['mut_t'] and q in fd['params']:
+                ctx.mismatch(nm + ':translator-unsound', 'the implementation changed its argument %s, which the model says is never written' % q, seen_t[q], 'pure', 'mutates')
+        if '?' in seen_t and not fd['mut_t']:
+            ctx.mismatch(nm + ':translator-unsound', 'the implementation tried to write into a read-only argument; the model says nothing is written', seen_t['?'], 'pure', 'mutates')
+        if not fd['copyutil']:
+            for q in fd['mut_f']:
+                if q not in fd['mut_t'] and q not in seen_f:
+                    why = ta.blame(prog, fd, [q], False)
+                    ctx.mismatch(nm + ':static-may-mutate-copy-false', 'the checker rejects %s under copy=False (parameter %s, %s) but no run changed that argument' % (nm, q, why[:3]),
+                                 {'fn': nm, 'parameter': q, 'blame': why[:5]})
+        for q in sorted(seen_f):
+            if q not in fd['mut_f'] and q in fd['params']:
+                ctx.mismatch(nm + ':translator-unsound', 'copy=False changed the argument %s, which the model says is never written' % q, seen_f[q], 'pure', 'mutates')
     for nm in dyn_public:
         if not exercised.get(nm) and nm not in not_ex:
-            not_ex[nm] = 'time budget of the tier exhausted before this function'
+            not_ex[nm] = 'not in this run\'s plan' if ONLY else 'safety net of the tier reached before this function'
     never_ok = sorted(nm for nm in dyn_public if exercised.get(nm) and not completed.get(nm))
     ctx.extra['dynamic'] = {
         'public_functions': len(dyn_public), 'exercised': len([n for n in dyn_public if exercised.get(n)]),
         'completed_at_least_once': len([n for n in dyn_public if completed.get(n)]),
         'only_exceptional_exits': never_ok, 'not_exercised': not_ex,
-        'mutating': sorted(dyn_mut), 'mutating_copy_false_non_utility': sorted(dyn_mut_cf),
+        'mutating': {k: sorted(v) for k, v in sorted(dyn_mut.items())},
+        'mutating_copy_false_non_utility': {k: sorted(v) for k, v in sorted(dyn_mut_cf.items()) if not (funs.get(k) or {}).get('copyutil')},
+        'copy_false_of_the_utilities': cf_stats,
         'result_shares_memory_with_argument': shared,
+        'motif_library_available': bool(lib),
     }
     try:
         os.remove(os.path.join(tempfile.gettempdir(), 'c13_%d.net' % os.getpid()))
@@ -703,10 +1024,14 @@ def replay(ctx, payload):
         print(json.dumps(payload, indent=1)[:4000])
         return 0
     args, kwargs = dec(case['args']), {k: dec(v) for k, v in (case.get('kwargs') or {}).items()}
-    import scipy.io
-    scipy.io.savemat = lambda *a, **k: None
-    status, resv, changed, arrs = run_case(getattr(bct, nm), tuple(args), kwargs, 30.0)
-    print('replay %s: status=%s arguments changed: %s' % (nm, status, [p for p, _, _ in changed] or 'none'))
+    if case.get('pass') == 'ro':
+        args, kwargs = freeze_deep(tuple(args)), freeze_deep(kwargs)
+    motif_library(bct)
+    status, resv, changed, arrs, msg = run_case(getattr(bct, nm), tuple(args), kwargs, 30.0)
+    print('replay %s (pass %s): status=%s %s arguments changed: %s' % (nm, case.get('pass', 'rw'), status, msg[:160], [p for p, _, _ in changed] or 'none'))
+    if case.get('pass') == 'ro' and 'read-only' in msg and not any(x in msg for x in READONLY_NOT_A_WRITE):
+        print('  the call tried to write into a read-only argument array')
+        return 1
     for p, b, a in changed[:2]:
         print('  %s before=%s\n  %s after =%s' % (p, np.asarray(b).tolist(), p, np.asarray(a).tolist()))
     return 1 if changed else 0
